@@ -17,8 +17,8 @@ static const char* KN[] = { "push", "try_pop" };
 std::string h_gen(Src& s) {
     if (drv_flag("--witness")) return "pq cmp=0 prefill=0 threads=1 throw=0 witness=1\nt 0 P1 P2 Q P3 Q\n";
     int nt = s.range(2, 4); int cmp = (int)s.choose(2); static const int pf[] = { 0, 0, 1, 3, 8, 20, 40 }; int prefill = pf[s.choose(7)];
-    int thr = s.coin(5) ? s.range(1, 10) : 0;
-    std::string o = "pq cmp=" + std::to_string(cmp) + " prefill=" + std::to_string(prefill) + " threads=" + std::to_string(nt) + " throw=" + std::to_string(thr) + "\n";
+    int thr = s.coin(5) ? s.range(1, 10) : 0; int athr = (!thr && s.coin(8)) ? s.range(1, 3) : 0;
+    std::string o = "pq cmp=" + std::to_string(cmp) + " prefill=" + std::to_string(prefill) + " threads=" + std::to_string(nt) + " throw=" + std::to_string(thr) + (athr ? " athrow=" + std::to_string(athr) : "") + "\n";
     int dom = s.range(2, 6);
     for (int t = 0; t < nt; t++) {
         o += "t " + std::to_string(t); int nops = s.range(1, 7);
@@ -38,6 +38,15 @@ std::string h_gen(Src& s) {
 
 static long g_cnt = 0, g_throw_at = 0; static bool g_armed = false, g_assign_throws = false; static long g_live = 0; static int g_fired = 0;
 struct Boom { int id; };
+static long g_alloc_cnt = 0, g_athrow_at = 0;
+template <class T> struct PAlloc {     // vector allocator that fails at the generated index while armed
+    using value_type = T; using is_always_equal = std::true_type;
+    PAlloc() = default; template <class U> PAlloc(const PAlloc<U>&) {}
+    T* allocate(size_t n) { if (g_armed && g_athrow_at && ++g_alloc_cnt == g_athrow_at) { g_fired++; throw std::bad_alloc(); } return (T*)std::malloc(n * sizeof(T)); }
+    void deallocate(T* p, size_t) { std::free(p); }
+    template <class U> bool operator==(const PAlloc<U>&) const { return true; }
+    template <class U> bool operator!=(const PAlloc<U>&) const { return false; }
+};
 struct Elem {
     int prio, id; unsigned guard;
     static void tick(int id) { if (g_armed && ++g_cnt == g_throw_at) { g_fired++; throw Boom{ id }; } }
@@ -134,11 +143,12 @@ void h_run(Case& c) {
     long prefill = 0;
     for (auto& l : c.lines) {
         auto w = split_ws(l);
-        if (w[0] == "pq") { g_cmp = (int)kvl(l, "cmp", 0); prefill = kvl(l, "prefill", 0); g_nt = (int)kvl(l, "threads", 2); g_throw_at = kvl(l, "throw", 0); g_witness = kvl(l, "witness", 0) != 0; g_assign_throws = g_witness; }
+        if (w[0] == "pq") { g_cmp = (int)kvl(l, "cmp", 0); prefill = kvl(l, "prefill", 0); g_nt = (int)kvl(l, "threads", 2); g_throw_at = kvl(l, "throw", 0); g_athrow_at = kvl(l, "athrow", 0); g_witness = kvl(l, "witness", 0) != 0; g_assign_throws = g_witness; }
         else if (w[0] == "t") { int t = atoi(w[1].c_str()); if ((int)g_ops.size() <= t) g_ops.resize(t + 1); g_ops[t].assign(w.begin() + 2, w.end()); }
     }
     g_ops.resize(g_nt); H.reserve(256);
     vs_begin(c.sched.c_str());
+    if (g_athrow_at) { if (g_cmp == 0) Run<tbb::concurrent_priority_queue<Elem, Less, PAlloc<Elem>>>::run(prefill); else Run<tbb::concurrent_priority_queue<Elem, Greater, PAlloc<Elem>>>::run(prefill); return; }
     if (g_cmp == 0) Run<tbb::concurrent_priority_queue<Elem, Less>>::run(prefill); else Run<tbb::concurrent_priority_queue<Elem, Greater>>::run(prefill);
 }
 int main(int argc, char** argv) { return drv_main(argc, argv); }
